@@ -14,6 +14,7 @@ def ren1 (u t' : Ticket) (c : Ticket) : Ticket := if c = u then t' else c
 structure ArrAt (d : Doc) (L : Int) (p u : Ticket) (pe ue : Elem) (nodes : List PosNode)
     (moved : Ticket → Option Ticket) : Prop where
   hd : d p = some pe
+  hpr : pe.removed = false
   hb : pe.body = .arr nodes moved
   hu : d u = some ue
   hur : ue.removed = false
@@ -27,7 +28,7 @@ structure ArrAt (d : Doc) (L : Int) (p u : Ticket) (pe ue : Elem) (nodes : List 
 theorem ArrDel.toAt {h : Hist} {p u : Ticket} {pe ue : Elem} {nodes : List PosNode}
     {moved : Ticket → Option Ticket} (a : ArrDel h p u pe ue nodes moved) :
     ArrAt h.doc h.lamport p u pe ue nodes moved :=
-  ⟨a.hd, a.hb, a.hu, a.hur, a.hul, a.hheld, a.huniq, a.hpos, a.hhead, a.hposL⟩
+  ⟨a.hd, a.hpr, a.hb, a.hu, a.hur, a.hul, a.hheld, a.huniq, a.hpos, a.hhead, a.hposL⟩
 
 /-- the heap after the deleted element `u` came back as `t'` -/
 def reins (d : Doc) (p u : Ticket) (pe ue : Elem) (nodes2 : List PosNode) (moved : Ticket → Option Ticket)
@@ -47,13 +48,14 @@ theorem reinsert_core {H : Home} {d : Doc} {L : Int} {p u : Ticket} {pe ue : Ele
       uexecute (kill d (some u)) tw .undoRedo (.add p pv ((leafCopy u ue).reid t') t') =
         .ok (reins d p u pe ue nodes2 moved t', some (.remove p t' t')) ∧
       holds nodes2 t' = true ∧
-      (∀ c, c ≠ t' → vis (reins d p u pe ue nodes2 moved t') (ren1 u t' c) = (vis d c).map (ren1 u t')) := by
-  obtain ⟨hd, hb, hu, hur, hul, hheld, huniq, hpos, hhead, hposL⟩ := a
+      (∀ c, live d c = true →
+        vis (reins d p u pe ue nodes2 moved t') (ren1 u t' c) = (vis d c).map (ren1 u t')) := by
+  obtain ⟨hd, hpr, hb, hu, hur, hul, hheld, huniq, hpos, hhead, hposL⟩ := a
   obtain ⟨r, hr⟩ := prefixBefore_isSome u nodes [] hheld
   obtain ⟨pre, nu, C, hnodes, hrr, hnu, hpre⟩ := prefixBefore_split u nodes [] r hr
   simp only [List.append_nil] at hrr
   have hnumem : nu ∈ nodes := by rw [hnodes]; simp
-  have hparu : H.par u = some p := w.arrMem _ _ _ _ _ _ hd hb hnumem hnu
+  have hparu : H.par u = some p := w.arrMem _ _ _ _ _ _ hd hpr hb hnumem hnu
   have hpu : p ≠ u := by intro hx; subst hx; rw [hd] at hu; injection hu with hu; subst hu; simp [hb, leafBody] at hul
   have hfp : findPrev d nodes u = some (prevLive d pre.reverse) := by simp [findPrev, hr, hrr]
   have hfresh' : ∀ e, d t' ≠ some e := fun e he => by have := bd.ent _ _ he; omega
@@ -128,7 +130,9 @@ theorem reinsert_core {H : Home} {d : Doc} {L : Int} {p u : Ticket} {pe ue : Ele
     rw [happ]
     rfl
   · exact holds_iff.2 ⟨_, (mem_insertAfter hins).2 (Or.inl rfl), rfl⟩
-  · intro a hat'
+  · intro a hla
+    have hat' : a ≠ t' := by
+      intro hx; obtain ⟨e, he, _⟩ := live_elem hla; exact hfresh' e (hx ▸ he)
     by_cases h1 : a = u
     · subst h1
       simp only [ren1, if_true, vis, reins, set_apply, htp, if_false, hu]
@@ -147,18 +151,19 @@ theorem reinsert_core {H : Home} {d : Doc} {L : Int} {p u : Ticket} {pe ue : Ele
         cases hdoc : d a with
         | none => simp [vis, hda, hdoc, Vis.map]
         | some e =>
+          have her : e.removed = false := by rw [live_some hdoc] at hla; simpa using hla
           have hch : ∀ c ∈ (vis d a).children, c ≠ u ∧ c ≠ t' := by
             intro c hc
             rcases vis_children_ref hdoc hc with ⟨keys, m, k, mm, hbe, hmm, rfl⟩ | ⟨ns, mv, n, hbe, hn, hne⟩
             · constructor
               · intro hx
-                have := (w.objMem _ _ _ _ _ _ hdoc hbe hmm).2.2
+                have := (w.objMem _ _ _ _ _ _ hdoc her hbe hmm).2.2
                 rw [hx, hparu] at this; injection this with this; exact h2 this.symm
               · intro hx
                 have := bd.child _ _ _ _ _ _ hdoc hbe hmm; rw [hx] at this; omega
             · constructor
               · intro hx
-                have := w.arrMem _ _ _ _ _ _ hdoc hbe hn hne
+                have := w.arrMem _ _ _ _ _ _ hdoc her hbe hn hne
                 rw [hx, hparu] at this; injection this with this; exact h2 this.symm
               · intro hx
                 have := bd.elem _ _ _ _ _ _ hdoc hbe hn hne; rw [hx] at this; omega
@@ -169,7 +174,7 @@ theorem reinsert_core {H : Home} {d : Doc} {L : Int} {p u : Ticket} {pe ue : Ele
             rw [hlive2]
             have hc1 : mm.child ≠ u := by
               intro hx
-              have := (w.objMem _ _ _ _ _ _ hdoc hbe hmm).2.2
+              have := (w.objMem _ _ _ _ _ _ hdoc her hbe hmm).2.2
               rw [hx, hparu] at this; injection this with this; exact h2 this.symm
             have hc2 : mm.child ≠ t' := by
               intro hx
@@ -179,7 +184,7 @@ theorem reinsert_core {H : Home} {d : Doc} {L : Int} {p u : Ticket} {pe ue : Ele
             rw [hlive2]
             have hc1 : c ≠ u := by
               intro hx
-              have := w.arrMem _ _ _ _ _ _ hdoc hbe hn hne
+              have := w.arrMem _ _ _ _ _ _ hdoc her hbe hn hne
               rw [hx, hparu] at this; injection this with this; exact h2 this.symm
             have hc2 : c ≠ t' := by
               intro hx
@@ -381,7 +386,7 @@ theorem orphaned_reins {H : Home} {d : Doc} {L : Int} {p u : Ticket} {pe ue : El
 theorem ArrAt.parent {H : Home} {d : Doc} {L : Int} {p u : Ticket} {pe ue : Elem} {nodes : List PosNode}
     {moved : Ticket → Option Ticket} (w : WF H d) (a : ArrAt d L p u pe ue nodes moved) : ue.parent = some p := by
   obtain ⟨n, hn, hne⟩ := holds_iff.1 a.hheld
-  exact (w.par _ _ a.hu).trans (w.arrMem _ _ _ _ _ _ a.hd a.hb hn hne)
+  exact (w.par _ _ a.hu).trans (w.arrMem _ _ _ _ _ _ a.hd a.hpr a.hb hn hne)
 
 theorem redo_undo_do_array_delete_lemma {h : Hist} {p u : Ticket} {pe ue : Elem} {nodes : List PosNode}
     {moved : Ticket → Option Ticket} (fr : Fresh h) (a : ArrDel h p u pe ue nodes moved)
@@ -446,7 +451,11 @@ theorem redo_undo_do_array_delete_lemma {h : Hist} {p u : Ticket} {pe ue : Elem}
         · simp [hcu] at hc
         · simp only [hcu, if_false] at hc; exact Or.inl hc
       · exact Or.inr hc
-    rw [vis_kill, vis_kill, hvis c (hnot c hc'), Vis.drop_map]
+    have hlc : live h.doc c = true := by
+      rcases hc' with hc' | hc'
+      · exact hc'
+      · exact hc' ▸ live_of_skel fr.root
+    rw [vis_kill, vis_kill, hvis c hlc, Vis.drop_map]
     intro x hx
     have hxl := vis_children_live hx
     have hxt : x ≠ t' := hnot x (Or.inl hxl)
@@ -566,20 +575,20 @@ theorem WF_insRes (w : WF H d) (bd : Bounded d L) (hx : L < x.lamport) (hd : d p
     · simp at hbe
     · simp only [] at hbe; rw [hbe] at hv; simp [leafBody] at hv
     · exact w.objSorted _ _ _ _ h3 hbe
-  · intro t e keys m k mm h hbe hm
+  · intro t e keys m k mm h hre hbe hm
     rcases insRes_cases h with ⟨rfl, rfl⟩ | ⟨_, rfl, rfl⟩ | ⟨_, _, h3⟩
     · simp at hbe
     · simp only [] at hbe; rw [hbe] at hv; simp [leafBody] at hv
-    · exact w.objMem _ _ _ _ _ _ h3 hbe hm
-  · intro t e ns mv n c h hbe hn hc
+    · exact w.objMem _ _ _ _ _ _ h3 hre hbe hm
+  · intro t e ns mv n c h hre hbe hn hc
     rcases insRes_cases h with ⟨rfl, rfl⟩ | ⟨_, rfl, rfl⟩ | ⟨_, _, h3⟩
     · simp only [Body.arr.injEq] at hbe
       obtain ⟨rfl, rfl⟩ := hbe
       rcases (hmem n).1 hn with rfl | hn'
       · simp only [Option.some.injEq] at hc; subst hc; exact hpar
-      · exact w.arrMem _ _ _ _ _ _ hd hb hn' hc
+      · exact w.arrMem _ _ _ _ _ _ hd hre hb hn' hc
     · simp only [] at hbe; rw [hbe] at hv; simp [leafBody] at hv
-    · exact w.arrMem _ _ _ _ _ _ h3 hbe hn hc
+    · exact w.arrMem _ _ _ _ _ _ h3 hre hbe hn hc
 
 theorem Bounded_insRes (bd : Bounded d L) (hx : L < x.lamport) (hd : d p = some pe)
     (hb : pe.body = .arr nodes moved) (hv : leafBody b = true)
@@ -675,7 +684,7 @@ theorem redo_undo_do_insert_lemma {h : Hist} {p prev : Ticket} {v : Val} {pe : E
     · intro hx; have := bd.elem _ _ _ _ _ _ a.hd a.hb hn hx; omega
   have aa : ArrAt d1 (h.lamport + 1) p h.next { pe with body := .arr nodes' moved } ⟨some p, false, v.body⟩
       nodes' moved := by
-    refine ⟨hd1p, rfl, hd1t, rfl, hv, hholds, ?_, ?_, ?_, ?_⟩
+    refine ⟨hd1p, (orphaned_root_removed (n := 63) a.horph a.hd).1, rfl, hd1t, rfl, hv, hholds, ?_, ?_, ?_, ?_⟩
     · intro x hx y hy hxe hye
       rcases (hmem x).1 hx with rfl | hx'
       · rcases (hmem y).1 hy with rfl | hy'
@@ -736,16 +745,13 @@ theorem redo_undo_do_insert_lemma {h : Hist} {p prev : Ticket} {v : Val} {pe : E
   · rw [key]; simp [ren1, hroot]
   · intro c hc
     apply hvis
-    intro hx
-    subst hx
-    have hlam : ∀ e, d1 c ≠ some e := fun e he => by
-      have := bd1.ent _ _ he; rw [← ht3] at this; simp only [] at this; omega
     rcases hc with hc | hc
-    · obtain ⟨e, he, _⟩ := live_elem hc; exact hlam e he
+    · exact hc
     · subst hc
-      obtain ⟨e, he, _⟩ := skel_some.1 fr.root
-      have h1 : rootId ≠ p := by
-        intro hx; rw [hx, hd1p] at hlam; exact hlam _ rfl
-      rw [← hd1o rootId h1 hroot] at he; exact hlam e he
+      by_cases h1 : rootId = p
+      · rw [h1]; simp [live, hd1p, (orphaned_root_removed (n := 63) a.horph a.hd).1]
+      · have := live_of_skel fr.root
+        unfold live at this ⊢
+        rw [hd1o rootId h1 hroot]; exact this
 
 end Yorkie.Undo
